@@ -6,6 +6,7 @@ for every input (assessed list, hidden sets, records, strategies). The harness p
 Markdown back into this structure.
 -/
 import Paroxy.Proofs.Report
+import Paroxy.Proofs.ReportOrder
 namespace Paroxy.Props.C17
 open Paroxy Paroxy.Filter Paroxy.Costs Paroxy.Report
 
@@ -96,12 +97,70 @@ theorem C17_stdout (st : State) (p : Codes) :
     p ∈ stdoutSelection st ↔ p ∈ st.selected ∧ p ∉ st.hiddenPrograms := by
   simp [stdoutSelection, List.mem_filter, Filter.contains_false_iff]
 
-/-- The full ordering clause of the property ("non-decreasing cost order across the whole
-listing" under `by_cost_and_sloc`) is NOT yet a theorem: `C17_order` gives it inside each heading;
-across headings it follows from the assessed list being sorted and `cost_bucket` being monotone
-(exercised by the harness on every report). -/
-def C17_order_across_headings (i : Input) (b : List (Bucket × List Section)) : Prop :=
-  i.sorting = .byCostAndSloc →
-    (b.flatMap fun g => g.2.map fun s => s.cost).Pairwise (· ≤ ·)
+/-- **Order across the whole listing.** Under `by_cost_and_sloc`, when the assessed list is sorted by
+non-decreasing, non-negative cost (which is what `assess` returns: `C07_ranking`, `programCost_nonneg`),
+the costs of ALL the sections of the report, read top to bottom across the headings, are
+non-decreasing — with `by_cost_bucket` grouping (the buckets appear in increasing order since
+`cost_bucket` is monotone) as well as without grouping (a single heading). -/
+theorem C17_order_across (i : Input) (hs : i.sorting = .byCostAndSloc)
+    (hsorted : i.assessed.Pairwise (fun a b => a.1 ≤ b.1))
+    (hnonneg : ∀ cp ∈ i.assessed, 0 ≤ cp.1)
+    (b : List (Bucket × List Section)) (h : body i = some b) :
+    (b.flatMap fun g => g.2.map fun s => s.cost).Pairwise (· ≤ ·) :=
+  body_costs_sorted i hs hsorted hnonneg b h
+
+/-- … in particular when the assessed list is the one `assess` returns for some selection. -/
+theorem C17_order_across_assess (i : Input) (hs : i.sorting = .byCostAndSloc) (sel : List Codes)
+    (ha : assess i.strat i.programs i.knowledge sel = some i.assessed)
+    (b : List (Bucket × List Section)) (h : body i = some b) :
+    (b.flatMap fun g => g.2.map fun s => s.cost).Pairwise (· ≤ ·) := by
+  unfold assess at ha
+  cases hm : sel.mapM (fun p => (dictGet? i.programs p).map fun rec => (programCost i.strat i.knowledge rec, p)) with
+  | none => simp [hm] at ha
+  | some costs =>
+    simp only [hm, bind, Option.bind, pure, Option.some.injEq] at ha
+    refine C17_order_across i hs ?_ ?_ b h
+    · rw [← ha]
+      refine (List.pairwise_mergeSort (fun a b c => leCostPath_trans a b c) leCostPath_total costs).imp ?_
+      intro x y hxy
+      simp only [leCostPath, Bool.or_eq_true, Bool.and_eq_true, decide_eq_true_eq] at hxy
+      rcases hxy with hlt | ⟨he, _⟩
+      · exact Rat.le_of_lt hlt
+      · rw [he]; exact Rat.le_refl
+    · intro cp hcp
+      rw [← ha] at hcp
+      have hcp' := (List.mergeSort_perm _ _).mem_iff.mp hcp
+      obtain ⟨p, _, hp⟩ := Filter.forall₂_mem_right (mapM_some_all2 _ _ _ hm) hcp'
+      cases hd : dictGet? i.programs p with
+      | none => simp [hd] at hp
+      | some rec =>
+        simp only [hd, Option.map_some, Option.some.injEq] at hp
+        rw [← hp]
+        exact programCost_nonneg i.strat i.knowledge rec
+
+-- Non-vacuity: three programs of costs 0, 1/2, 5/4 (what `assess` returns for them), listed under
+-- three headings (resp. one heading without grouping); all the hypotheses hold.
+-- (`mergeSort` does not reduce in the kernel, hence `mergeSort_of_pairwise` / `body_of_presorted`.)
+example : (exampleInput true).sorting = .byCostAndSloc ∧
+    (exampleInput true).assessed.Pairwise (fun a b => a.1 ≤ b.1) ∧
+    (∀ cp ∈ (exampleInput true).assessed, 0 ≤ cp.1) := by decide +kernel
+example : assess (exampleInput true).strat (exampleInput true).programs (exampleInput true).knowledge
+    [codesOf "c.py", codesOf "a.py", codesOf "b.py"] = some (exampleInput true).assessed := by
+  have hm : [codesOf "c.py", codesOf "a.py", codesOf "b.py"].mapM (fun p =>
+      (dictGet? (exampleInput true).programs p).map fun rec =>
+        (programCost (exampleInput true).strat (exampleInput true).knowledge rec, p)) =
+      some (exampleInput true).assessed := by decide +kernel
+  unfold assess
+  rw [hm]
+  simp only [bind, Option.bind, pure]
+  rw [List.mergeSort_of_pairwise (by decide +kernel)]
+example : (body (exampleInput true)).map listing =
+    some [(.zero, [(0, codesOf "c.py")]), (.q3, [(1 / 2, codesOf "a.py")]), (.pow 1, [(5 / 4, codesOf "b.py")])] := by
+  rw [body_of_presorted _ (by decide +kernel)]
+  decide +kernel
+example : (body (exampleInput false)).map listing =
+    some [(.noGroup, [(0, codesOf "c.py"), (1 / 2, codesOf "a.py"), (5 / 4, codesOf "b.py")])] := by
+  rw [body_of_presorted _ (by decide +kernel)]
+  decide +kernel
 
 end Paroxy.Props.C17
